@@ -145,6 +145,12 @@ static void fam_k2(int thorough) {	// every match finder x mode x nice_len x dep
 		set_lzma(&OL[0], DICT[di], 3, 0, 2, mode ? LZMA_MODE_NORMAL : LZMA_MODE_FAST, NICE[ni], MFS[m], DEPTH[de]); config c; cfg_lzma(&c, EN_RAW, LZMA_FILTER_LZMA2, &OL[0]); n_cfg++;
 		all_sigma2(&c, thorough ? 10 : 7); structured(&c, DICT[di], thorough ? 12 : 9, thorough); in_lcg(5000, 7); roundtrip(&c);
 		for (int dd = -17; dd <= 2; dd++) { if (!thorough && dd < -1 && (dd + 17) % 4) continue; in_farrepeat(DICT[di] + dd, 3 * DICT[di] + 100, 5); roundtrip(&c); } }	/* distances dict-1, dict, dict+1, dict+2 in both tiers */
+	// dictionary sizes that are not of the 2^n / 2^n+2^(n-1) form, through the .xz encoders (the Block Header has to declare the next encodable size)
+	static const uint32_t ODD[] = { 4097, 4608, 5000, 5120, 6145, 7000, 12289, 20000, 65537, 70000, 98305, (1u << 20) + 1 };
+	for (unsigned di = 0; di < sizeof ODD / sizeof ODD[0]; di++) for (int e = 0; e < 2; e++) { if (!take()) continue;
+		set_lzma(&OL[0], ODD[di], 3, 0, 2, LZMA_MODE_FAST, 32, LZMA_MF_HC4, 0); config c; cfg_lzma(&c, e ? EN_STREAM_BUF : EN_STREAM, LZMA_FILTER_LZMA2, &OL[0]); n_cfg++;
+		in_sigma(6, 37, "ab", 2); roundtrip(&c); in_lcg(300, 5); roundtrip(&c);
+		if (ODD[di] < 200000) for (int dd = -1; dd <= 0; dd++) { in_farrepeat(ODD[di] + dd, 2 * (size_t)ODD[di] + 300, 5); roundtrip(&c); } }
 }
 static void fam_k3(int thorough) {	// presets x checks through the one-shot easy encoder
 	static const lzma_check CK[] = { LZMA_CHECK_NONE, LZMA_CHECK_CRC32, LZMA_CHECK_CRC64, LZMA_CHECK_SHA256 };
